@@ -622,8 +622,10 @@ pub fn run(args: &Args) {
         let d = if quick { 5 } else { 6 };
         results.push(run_space(&mut rep, &flavour, "deep/2 names x keys {[a],[a,a],[ab],[a,ab]} x 1 value", &deep2, vec![vec![], preamble('A', 3)], d, true, false, &stats, &deadline, scratch.path()));
     } else {
-        // flavour P: every sequence of length ≤ 3 after a preamble of 0..18 one-write segments
+        // flavour P: every sequence of length ≤ 2 after a preamble of 0..18 segments, and of length
+        // ≤ 3 after the preambles around the 16-level limit
         let mut starts = Vec::new();
+        let mut near = Vec::new();
         for p in 0..=18 {
             starts.push(preamble('A', p));
             if p > 0 {
@@ -632,9 +634,14 @@ pub fn run(args: &Args) {
             if [1, 2, 15, 16, 17].contains(&p) {
                 starts.push(preamble('C', p));
             }
+            if (15..=17).contains(&p) {
+                near.extend([preamble('A', p), preamble('B', p), preamble('C', p)]);
+            }
         }
-        let d = if quick { 2 } else { 3 };
-        results.push(run_space(&mut rep, &flavour, "exact/full-alphabet after 0..18 segments", &full, starts, d, false, false, &stats, &deadline, scratch.path()));
+        results.push(run_space(&mut rep, &flavour, "exact/full-alphabet after 0..18 segments", &full, starts, 2, false, false, &stats, &deadline, scratch.path()));
+        if !quick {
+            results.push(run_space(&mut rep, &flavour, "exact/full-alphabet after 15..17 segments", &full, near, 3, false, false, &stats, &deadline, scratch.path()));
+        }
         let starts = vec![preamble('B', 15), preamble('B', 16), preamble('B', 17)];
         results.push(run_space(&mut rep, &flavour, "exact/full-alphabet+FileManager around the 16-level limit", &full, starts, if quick { 1 } else { 2 }, false, true, &stats, &deadline, scratch.path()));
     }
@@ -671,12 +678,14 @@ pub fn run(args: &Args) {
         ("file_manager_executions", stats.file_executions.load(Relaxed)),
     ] {
         rep.count(k, v);
-        rep.require_nonzero(k);
+        if rep.violations().is_empty() {
+            rep.require_nonzero(k);
+        }
         rep.outcome(k, v);
     }
     drop(scratch);
     rep.set(&format!("max_fact_index_depth_seen_{flavour}"), stats.max_chain_depth.load(Relaxed));
-    if stats.max_chain_depth.load(Relaxed) != limit {
+    if stats.max_chain_depth.load(Relaxed) != limit && rep.violations().is_empty() {
         mcx::machinery_error(&format!("deepest fact index chain seen is {} but the limit of this flavour is {limit}", stats.max_chain_depth.load(Relaxed)));
     }
     rep.assume("deep spaces only: an update list is consumed solely by a left fold into an ordered map keyed by (name,key), so lists with the same last write per key are interchangeable (the exact spaces do not use this)");
